@@ -591,6 +591,31 @@ func ruleEqShapeBody(c *Ctx, b *Body) {
 				l.add("R-EQSHAPE", b.Name, key, b.posOf(call), Discharged, fmt.Sprintf("dominated by the false edges of %d container probe(s) on the first operand", len(probes)), true)
 			}
 		})
+		// … and there is such a comparison: values that are neither objects, arrays nor
+		// strings are equal exactly when their compacted texts are, byte for byte (a folding
+		// or parsing comparison makes "Foo" equal "foo", or 1 equal 1.0)
+		{
+			key := name + ": scalars are compared byte for byte on their compacted texts"
+			folding := ""
+			allInstrs(eq, func(i ssa.Instruction) {
+				if call, ok := i.(*ssa.Call); ok {
+					if f := call.Call.StaticCallee(); f != nil {
+						switch stdName(f) {
+						case "bytes.EqualFold", "strings.EqualFold", "bytes.Compare", "strings.Compare":
+							folding = stdName(f) + " at " + b.posOf(call)
+						}
+					}
+				}
+			})
+			switch {
+			case folding != "":
+				l.add("R-EQSHAPE", b.Name, key, b.rel(eq.Pos()), Violated, "the comparison uses "+folding+": texts that differ in case (or are merely ordered) are taken for equal values", true)
+			case nCmp == 0:
+				l.add("R-EQSHAPE", b.Name, key, b.rel(eq.Pos()), Violated, "no bytes.Equal (or string ==) of the two operands' compacted texts found: scalars are compared by something else", true)
+			default:
+				l.add("R-EQSHAPE", b.Name, key, b.rel(eq.Pos()), Discharged, fmt.Sprintf("%d byte-wise comparison(s) of the two compacted texts, no folding or ordering comparison", nCmp), true)
+			}
+		}
 	}
 	// (Q2) string comparisons
 	nStr := 0
